@@ -139,6 +139,7 @@ func oracleC07(w *World, op *Op) {
 			idx := op.A + int64(i)
 			sub := w.subForIndex(idx)
 			if sub == nil {
+				s.Probe("c07.foreign-served")
 				continue
 			}
 			le, err := ct.LogEntryFromLeaf(idx, &ct.LeafEntry{LeafInput: e.LeafInput, ExtraData: e.ExtraData})
